@@ -2,32 +2,74 @@ package main
 
 import (
 	"fmt"
+	"math"
 
 	"github.com/tidwall/geojson/geometry"
 )
 
-func main() {
-	for _, n := range []int{34, 40, 66} {
-		out := make([]geometry.Point, n)
-		for i := range out {
-			s := 1.0
-			if i%2 == 1 {
-				s = -1
-			}
-			out[i] = geometry.Point{X: s * 1.7e308 * float64(i%5+1) / 5, Y: -s * 1.7e308 * float64(i%3+1) / 3}
+func midlines(lo, hi float64, depth int) []float64 {
+	m1, m2 := (lo+hi)/2, lo+(hi-lo)/2
+	out := []float64{m1}
+	if m2 != m1 {
+		out = append(out, m2)
+	}
+	if depth > 0 {
+		out = append(out, midlines(lo, m1, depth-1)...)
+		out = append(out, midlines(m1, hi, depth-1)...)
+	}
+	return out
+}
+
+func gen(n int) []geometry.Point {
+	x0, x1, y0, y1 := 12.3, 15.1, 0.2, 1.0
+	ys := midlines(y0, y1, 2)
+	xs := midlines(x0, x1, 2)
+	out := []geometry.Point{{X: x0, Y: y0}, {X: x1, Y: y0}, {X: x1, Y: y1}, {X: x0, Y: y1}}
+	for i := 4; i < n; i++ {
+		k := i - 4
+		y := y1 - (y1-y0)*float64(k+1)/float64(n-3)
+		x := x0
+		if k%2 == 1 {
+			x = x0 + 0.05
 		}
-		l := geometry.NewLine(out, &geometry.IndexOptions{Kind: geometry.QuadTree, MinPoints: 1})
-		fmt.Println(l.Rect(), len(l.Index().([]byte)))
-		for _, q := range []geometry.Rect{{Min: geometry.Point{X: 1e307, Y: 1e307}, Max: geometry.Point{X: 2e307, Y: 2e307}}, {Min: geometry.Point{X: 1.6e308, Y: -1.7e308}, Max: geometry.Point{X: 1.7e308, Y: -1.6e308}}} {
-			c := 0
-			l.Search(q, func(geometry.Segment, int) bool { c++; return true })
-			b := 0
-			for i := 0; i < l.NumSegments(); i++ {
-				if l.SegmentAt(i).Rect().IntersectsRect(q) {
-					b++
-				}
+		if k < 2*len(ys) {
+			y = ys[k/2]
+		} else if k < 2*len(ys)+len(xs) {
+			x = xs[k-2*len(ys)]
+		}
+		out = append(out, geometry.Point{X: x, Y: y})
+	}
+	return out
+}
+
+func main() {
+	pts := gen(64)
+	p := geometry.Point{X: 12.3, Y: 0.6}
+	for _, o := range []*geometry.IndexOptions{{Kind: geometry.None}, {Kind: geometry.RTree, MinPoints: 1}, {Kind: geometry.QuadTree, MinPoints: 1}} {
+		l := geometry.NewLine(pts, o)
+		var hits []int
+		q := geometry.Rect{Min: p, Max: p}
+		l.Search(q, func(s geometry.Segment, i int) bool { hits = append(hits, i); return true })
+		var brute []int
+		for i := 0; i < l.NumSegments(); i++ {
+			if l.SegmentAt(i).Rect().IntersectsRect(q) {
+				brute = append(brute, i)
 			}
-			fmt.Println(n, c, b)
+		}
+		fmt.Println(o.Kind, l.ContainsPoint(p), hits, brute)
+		for _, i := range brute {
+			fmt.Println("   seg", i, l.SegmentAt(i), l.SegmentAt(i).Raycast(p))
+		}
+	}
+	_ = math.Pi
+	for _, n := range []int{33, 64} {
+		pts := gen(n)
+		for _, o := range []*geometry.IndexOptions{{Kind: geometry.None}, {Kind: geometry.RTree, MinPoints: 1}, {Kind: geometry.QuadTree, MinPoints: 1}, nil} {
+			pl := geometry.NewPoly(pts, nil, o)
+			var hits []int
+			strip := geometry.Rect{Min: geometry.Point{X: math.Inf(-1), Y: p.Y}, Max: geometry.Point{X: math.Inf(1), Y: p.Y}}
+			pl.Exterior.Search(strip, func(s geometry.Segment, i int) bool { hits = append(hits, i); return true })
+			fmt.Println("poly", n, o, pl.ContainsPoint(p), len(hits), hits)
 		}
 	}
 }
